@@ -26,5 +26,7 @@ fn main() {
   };
   for d in drivers.iter() {
     f(d, &mut out, &args[4]);
+    // the driver's handles and arena are gone: a death after this line is not this driver's
+    out.emit(&serde_json::json!({"ev": "end", "id": d["id"]}));
   }
 }
